@@ -30,7 +30,8 @@ ASSUMPTIONS = ['the samples delivered by antenna_source.get_samples are the inpu
 def required(tier):
     b = {'bits:8': 20, 'bits:4': 20, 'npol:1': 20, 'npol:2': 20, 'array': 10, 'single': 20, 'orient:asc': 20, 'orient:desc': 20,
          'digitize:on': 20, 'digitize:off': 10, 'nsub-not-dividing': 10, 'multi-file': 20, 'last-file-partial': 10,
-         'partition-sweep': 20, 'second-recording-same-backend': 10, 'collect-direct': 10, 'digitiser:wider-than-8-bits': 15, 'header:512-aligned+directio': 30}
+         'partition-sweep': 20, 'second-recording-same-backend': 10, 'collect-direct': 10, 'digitiser:wider-than-8-bits': 15, 'header:512-aligned+directio': 30,
+         'voltages:tiny-units': 20, 'voltages:large-dc-level': 20}
     return {'buckets': b, 'counters': {'samples_compared': 100000, 'recordings': 300, 'partition_recordings': 200},
             'checks': 500, 'nontrivial': 50}
 
@@ -103,6 +104,10 @@ def run_case(c, R):
     R.bucket(f"npol:{cfg['npol']}")
     R.bucket('array' if cfg['nants'] > 1 else 'single')
     R.bucket('orient:asc' if cfg['asc'] else 'orient:desc')
+    if cfg.get('vscale', 1.0) != 1.0:
+        R.bucket('voltages:tiny-units')
+    if cfg.get('dc', 0.0):
+        R.bucket('voltages:large-dc-level')
     R.bucket('digitize:on' if cfg['digitize'] else 'digitize:off')
     if cfg['digitize'] and cfg['dig_bits'] > 8:
         R.bucket('digitiser:wider-than-8-bits')
